@@ -8,6 +8,7 @@ import (
 	"context"
 	"fmt"
 	"log"
+	"math"
 	"net"
 	"net/http"
 	"net/http/httptest"
@@ -37,7 +38,8 @@ type opState struct {
 	cmd       chan string
 	invoked   atomic.Int32
 	consumed  atomic.Int64
-	ended     atomic.Bool // producer closed the channel on command (end / adderr)
+	ended     atomic.Bool  // producer closed the channel on command (end / adderr)
+	bad       atomic.Int64 // events taken by gqlgen that cannot be encoded (Any holding NaN)
 	ctxDone   atomic.Bool
 	hasProd   atomic.Bool
 	prodExit  atomic.Bool
@@ -176,6 +178,22 @@ func produce(ctx context.Context, cs *connState, op *opState, ch chan *tx.Event)
 					onCancel()
 					return
 				}
+			case "emitbad":
+				// an event that cannot be serialized (ratio: a float scalar written as it is, holding NaN): the operation fails with
+				// an error frame and is over; nothing of it may follow that error
+				p := fmt.Sprintf("p%d", seq)
+				nan := math.NaN()
+				op.bad.Add(1) // before the hand-over: gqlgen may fail on the event at once
+				select {
+				case ch <- &tx.Event{Seq: seq, Payload: &p, Ratio: &nan}:
+					seq++
+					op.consumed.Add(1)
+					cs.ev("consumed", op.id)
+				case <-ctx.Done():
+					op.bad.Add(-1)
+					onCancel()
+					return
+				}
 			case "end", "adderr":
 				if cmd == "adderr" {
 					transport.AddSubscriptionError(ctx, gqlerror.Errorf("planned subscription error"))
@@ -296,7 +314,18 @@ func serverFor(name string) *server {
 	h.Use(rejectGate{})
 	h.SetRecoverFunc(func(ctx context.Context, err any) error {
 		if cs := connFrom(ctx); cs != nil {
-			if s, ok := err.(string); !ok || s != plannedPanic {
+			unencodable := false
+			if e, ok := err.(error); ok && (strings.Contains(e.Error(), "json.RawMessage") || strings.Contains(e.Error(), "unsupported value: NaN")) {
+				// the transport could not encode a payload (an event the script made unencodable)
+				cs.mu.Lock()
+				for _, op := range cs.ops {
+					if op.bad.Load() > 0 {
+						unencodable = true
+					}
+				}
+				cs.mu.Unlock()
+			}
+			if s, ok := err.(string); (!ok || s != plannedPanic) && !unencodable {
 				buf := make([]byte, 16384)
 				buf = buf[:runtime.Stack(buf, false)]
 				cs.mu.Lock()
